@@ -66,6 +66,11 @@ impl<'a> Iterator for TrieEntryIter<'a> {
             // Unwrap is safe: access is always in bounds
             // It is optimized away: https://rust.godbolt.org/z/va9K3az4n
             let k = self.data.get(i).unwrap();
+            if *k == 0 {
+                // 0 is the label of the value units: it never is a part of a key,
+                // following it would continue matching as if the byte was not there
+                return None;
+            }
             node_pos ^= *k as usize;
             unit = self.get(node_pos) as usize;
             if Trie::label(unit) != *k as usize {
